@@ -276,6 +276,31 @@ NegFall(where) ==
            <<Set("i", MutE(WInt, I(0))), Loop(Block(<<Asg("+=", V("i"), I(1))>> \o FallBody(where)))>>),
     Bin("+", CallE(V("f"), <<Hide(WInt, I(3))>>), I(1))>>
 
+\* A callee whose static type is a union of function types takes, at each position, only what EVERY member takes (the
+\* meet of the parameter types).  The argument below fits the second member's parameter only, and the callee is the first
+\* member at run time: the call must be refused.  If an implementation accepts it, the argument event is judged against
+\* the first member's parameter type.
+StV(t) == WStruct(<< <<"v", t>> >>)
+CalleeTriples == <<
+  <<StV(WInt), StV(WStr), StructE(<< <<"v", S(<<97>>)>> >>)>>,
+  <<WStruct(<< <<"v", WInt>>, <<"w", WInt>> >>), StV(WInt), StructE(<< <<"v", I(1)>> >>)>>,
+  <<StV(WMulti(<<WInt, WVoid>>)), StV(WMulti(<<WInt, WStr>>)), StructE(<< <<"v", S(<<97>>)>> >>)>>,
+  <<WArr(WInt), WArr(WStr), ArrE(<<S(<<97>>)>>)>>,
+  <<WTup(<<WInt, WInt>>), WTup(<<WStr, WInt>>), TupE(<<S(<<97>>), I(1)>>)>>,
+  <<WInt, WMulti(<<WInt, WStr>>), S(<<97>>)>>,
+  <<WArr(StV(WInt)), WArr(StV(WStr)), ArrE(<<StructE(<< <<"v", S(<<97>>)>> >>)>>)>>,
+  <<WFn(<<>>, WInt), WFn(<<>>, WStr), FnE(<<>>, WStr, <<Ret(S(<<97>>))>>)>> >>
+NegCallee(i, how) ==
+  LET t == CalleeTriples[i]
+      uty == WMulti(<<WFn(<<t[1]>>, WInt), WFn(<<t[2]>>, WInt)>>) IN
+  <<FnDecl("g", <<P("s", t[1])>>, WInt, <<Set("u", V("s")), Ret(I(1))>>),
+    FnDecl("h", <<P("s", t[2])>>, WInt, <<Ret(I(2))>>)>> \o
+  (IF how = "pick"
+   THEN <<FnDecl("pick", <<P("c", WBool)>>, uty, <<If1(V("c"), Block(<<Ret(V("g"))>>)), Ret(V("h"))>>),
+          Set("f", CallE(V("pick"), <<Hide(WBool, B(TRUE))>>)), CallE(V("f"), <<t[3]>>)>>
+   ELSE <<Set("f", If(Hide(WBool, B(TRUE)), Block(<<V("g")>>), Block(<<V("h")>>))), CallE(V("f"), <<t[3]>>)>>)
+NegCalleeSeq == SetToSeq({<<i, how>> : i \in 1..Len(CalleeTriples), how \in {"pick", "if"}})
+
 Init == row = 0
 Next == \/ row = 0 /\ row' \in {-c : c \in 1..Chunks}
         \/ row < 0 /\ row' \in {i \in 1..N : i % Chunks = (-row) % Chunks}
@@ -297,6 +322,9 @@ Emit ==
                                    exp |-> [status |-> "rejected", v |-> VoidV, log |-> <<>>]]]
         \o [i \in 1..Len(FallWheres) |-> [id |-> "c12t-negfall-" \o FallWheres[i], suite |-> "c12t", negative |-> TRUE,
                                    prog |-> NegFall(FallWheres[i]),
+                                   exp |-> [status |-> "rejected", v |-> VoidV, log |-> <<>>]]]
+        \o [i \in 1..Len(NegCalleeSeq) |-> [id |-> "c12t-negcallee-" \o ToString(NegCalleeSeq[i][1]) \o NegCalleeSeq[i][2], suite |-> "c12t", negative |-> TRUE,
+                                   prog |-> NegCallee(NegCalleeSeq[i][1], NegCalleeSeq[i][2]),
                                    exp |-> [status |-> "rejected", v |-> VoidV, log |-> <<>>]]])
   /\ PrintT(<<"CASES", N, NV>>)
 =============================================================================
